@@ -63,18 +63,21 @@ type Explorer struct {
 	SymNames     []string
 	Observed     []string // concrete-mode observations
 	PanicsSeen   []string
+	RingUsed     bool
+	SymKinds     map[string]string   // symbol name -> "bv<w>s" / "bv<w>u" / "f32" / "f64" / "bool"
+	SymRanges    map[string][2]int64 // symbols created through IntIn/Int64In
 	World        *World
 	NoMerge      bool
 	work         [][]uint64
 }
 
 type Ctx struct {
-	E        *Explorer
-	Prog     *ssa.Program
-	St       *smt.Store
-	Sol      *smt.Session
-	Ring     bool
-	MapOrder bool
+	E         *Explorer
+	Prog      *ssa.Program
+	St        *smt.Store
+	Sol       *smt.Session
+	Ring      bool
+	MapOrder  bool
 	MapOrders bool
 
 	globals  map[*ssa.Global]*Value
@@ -93,11 +96,11 @@ type Ctx struct {
 	namedSet map[string]bool
 	dead     bool
 
-	lastPanic *PanicV
-	eof       *ErrV
+	lastPanic  *PanicV
+	eof        *ErrV
 	watchSlots map[*Value]string
-	NoMerge   bool
-	spec      int
+	NoMerge    bool
+	spec       int
 	// frame monitor
 	protected map[*Shadow]string
 	writes    []string
@@ -131,6 +134,10 @@ func (e *Explorer) Run() {
 	if e.Stubs == nil {
 		e.Stubs = map[string]int{}
 	}
+	if e.SymKinds == nil {
+		e.SymKinds = map[string]string{}
+		e.SymRanges = map[string][2]int64{}
+	}
 	e.work = [][]uint64{nil}
 	for len(e.work) > 0 {
 		if e.Paths >= e.MaxPaths {
@@ -151,6 +158,9 @@ func (e *Explorer) runPath(prefix []uint64) {
 	}
 	defer func() {
 		e.Steps += c.Steps
+		if c.Ring {
+			e.RingUsed = true
+		}
 		if e.Sol != nil {
 			e.Sol.PopAll()
 		}
